@@ -17,12 +17,15 @@ def run(ctx):
     M.m3_path_rule(ctx)
     M.m4_generation_wiring(ctx)
     M.m5_union_sub_objects(ctx)
+    M.m4b_verification_levels(ctx)
     # the parameter maps that key the generated objects
     from ..engines import varkind as V
     V.v1_children_map_builders(ctx)
+    V.v6_derived_constructors(ctx)
+    ctx.floor("V6", 8)
     ctx.floor("V1", 14)
     ctx.floor("M1", 4)
     ctx.floor("M2", 5)
     ctx.floor("M3", 3)
-    ctx.floor("M4", 8)
+    ctx.floor("M4", 10)
     ctx.floor("M5", 3)
